@@ -101,7 +101,7 @@ def stages(tier, seed, witness_search=False):
         zs.append(Script([f"D zeroscan hash {ln} 0"], tags=("zeroize-hash",)))
         for ex in [0, 10, 64, 200]:
             zs.append(Script([f"D zeroscan x {ln} {ex}"], tags=("zeroize-reader",)))
-    return [PairStage("debug", scripts), LineStage("zeroize-scan", zs, oracle=zero_oracle, max_minimise=1)]
+    return [PairStage("debug", scripts), LineStage("zeroize-scan", zs, oracle=zero_oracle, max_minimise=2)]
 
 
 def replay(d, lean_exe):
